@@ -199,14 +199,8 @@ func pxPrograms(tier, checks string) []*Program {
 }
 
 func init() {
-	scenarioSets["C01"] = func(tier string) []*Scenario {
-		var scs []*Scenario
-		for _, p := range pxPrograms(tier, "layers") {
-			p.reduce = hasTimed(p.Stack)
-			scs = append(scs, &Scenario{Name: "C01/" + p.String(), Bound: 1, Reduce: p.reduce, Body: p.Body()})
-		}
-		return scs
-	}
+	scenarioSets["C01"] = func(tier string) []*Scenario { return programScenarios("C01", pxPrograms(tier, "layers"), 1) }
+	scenarioSets["C17"] = func(tier string) []*Scenario { return programScenarios("C17", pxPrograms(tier, "layers,stats"), 1) }
 	register(&CheckDef{
 		Property:  "C01",
 		Technique: "exhaustive enumeration of programs (policy stack x configuration x outcome script x history), each executed on the real code under the virtual runtime with a transparent probe between every two layers, and checked layer by layer against the documented behaviour of each policy",
